@@ -550,32 +550,29 @@ def r19e(ctx):
     if not ok:
         ctx.report("R19e", d2a, d2a.node, f"digit_to_alpha constants {idg}", "digit_to_alpha does not peel digits with (digit - 1) % 26 and (digit - 1) // 26 (bijective base 26)")
     # offsets: parser: ord(c) - ord('a') + 1 on lower-cased input, result - 1 ; printer: digit += 1, chr(65 + …)
-    sa = ast.unparse(a2d.node)
-    ok = "ord(c) - ord('a') + 1" in sa and ".lower()" in sa and "return column - 1" in sa
+    from ..shape import has
+    ok = has(a2d.node, "ord(C_) - ord('a') + 1") and has(a2d.node, "for C_ in A_.lower():\n    REST_") and has(a2d.node, "return X_ - 1") \
+        and has(a2d.node, "X_ = X_ * 26 + V_")
     ctx.instance("R19e", f"{a2d.file}:{a2d.ident}", "digits a..z ↦ 1..26 on lower-cased input, result shifted to 0-based", ok=ok, nontrivial=True)
     if not ok:
         ctx.report("R19e", a2d, a2d.node, "alpha_to_digit offsets", "letter values / zero-based shift of alpha_to_digit changed")
-    sd = ast.unparse(d2a.node)
-    ok = "digit += 1" in sd and ("chr(65 +" in sd or "chr(ord('A') +" in sd) and "+ column" in sd
+    ok = has(d2a.node, "D_ += 1") and (has(d2a.node, "C_ = chr(65 + (D_ - 1) % 26) + C_") or has(d2a.node, "C_ = chr(ord('A') + (D_ - 1) % 26) + C_"))
     ctx.instance("R19e", f"{d2a.file}:{d2a.ident}", "1-based shift, 'A' + remainder, most significant letter first", ok=ok, nontrivial=True)
     if not ok:
         ctx.report("R19e", d2a, d2a.node, "digit_to_alpha offsets", "digit_to_alpha no longer shifts to 1-based, maps remainders to 'A'.. and prepends letters")
     # convert_coordinates: rows are 1-based in strings
     cc = repo.func("utils.coordinates:convert_coordinates")
-    sc = ast.unparse(cc.node)
-    ok = "int(coord[len(alpha):]) - 1" in sc and "split(':', 1)" in sc
+    ok = has(cc.node, "L_ = int(C_[len(A_):]) - 1") and has(cc.node, "O_.split(':', 1)")
     ctx.instance("R19e", f"{cc.file}:{cc.ident}", "row number parsed as int(...) - 1; range split on the first ':'", ok=ok, nontrivial=True)
     if not ok:
         ctx.report("R19e", cc, cc.node, "convert_coordinates row offset", "row numbers in 'A1' notation are 1-based: the parser must subtract one; ranges split on ':'")
     tf = repo.func("utils.coordinates:translate_from_any")
-    st = ast.unparse(tf.node)
-    ok = "convert_coordinates(x)[idx]" in st and "increment(value_int, length)" in st and "value_int < 0" in st
+    ok = has(tf.node, "V_ = convert_coordinates(X_)[I_]") and has(tf.node, "if V_ < 0:\n    return increment(V_, L_)")
     ctx.instance("R19e", f"{tf.file}:{tf.ident}", "string form parsed by convert_coordinates, negatives wrapped by increment(value, length)", ok=ok, nontrivial=True)
     if not ok:
         ctx.report("R19e", tf, tf.node, "translate_from_any", "translate_from_any no longer parses strings with convert_coordinates / wraps negatives with the length")
     inc = repo.func("utils.coordinates:increment")
-    si = ast.unparse(inc.node)
-    ok = "while value < 0" in si and "value += step" in si
+    ok = has(inc.node, "while V_ < 0:\n    REST_") and has(inc.node, "V_ += S_")
     ctx.instance("R19e", f"{inc.file}:{inc.ident}", "negative values are wrapped by adding the length until non-negative", ok=ok)
     if not ok:
         ctx.report("R19e", inc, inc.node, "increment", "increment no longer adds the length until the value is non-negative")
@@ -630,4 +627,7 @@ SEEDS = [
     Seed("alpha_to_digit forgets the zero-based shift", "fault", "src/odfdo/utils/coordinates.py", "    return column - 1", "    return column", "R19e"),
     Seed("convert_coordinates keeps rows 1-based", "fault", "src/odfdo/utils/coordinates.py", "            line = int(coord[len(alpha) :]) - 1", "            line = int(coord[len(alpha) :])", "R19e"),
     unparse_seed(_T), unparse_seed(_R), unparse_seed("src/odfdo/utils/coordinates.py"),
+    Seed("alpha_to_digit with renamed locals", "neutral", "src/odfdo/utils/coordinates.py",
+         "    column = 0\n    for c in alpha.lower():\n        v = ord(c) - ord(\"a\") + 1\n        column = column * 26 + v\n    return column - 1",
+         "    acc = 0\n    for letter in alpha.lower():\n        val = ord(letter) - ord(\"a\") + 1\n        acc = acc * 26 + val\n    return acc - 1"),
 ]
